@@ -3899,3 +3899,60 @@ twin('C04-twin-indices-type-from-both', 'C04',
      [(_MK, "    indices_dtype = choose_int_dtype((0, max_indices))\n",
        "    indices_dtype = choose_int_dtype(\n"
        "        (0, max(max_indices, n_indices)))\n")])
+_SCU = P+'diff_exp/score_utils.py'
+mutant('C11-population-variance', 'C11',
+       'aggregate_stats divides the sum of squares by n instead of n - 1',
+       [(_SCU, "    var = (sumsq_arr-sum_arr**2/max(1, n_cells))/max(1, n_cells-1)\n",
+         "    var = (sumsq_arr-sum_arr**2/max(1, n_cells))/max(1, n_cells)\n")],
+       'R-ARITH/moments', 'var')
+mutant('C18-mean-over-n-minus-one', 'C18',
+       'aggregate_stats divides the sum by n - 1',
+       [(_SCU, "    mu = sum_arr/max(1, n_cells)\n",
+         "    mu = sum_arr/max(1, n_cells-1)\n")],
+       'R-ARITH/moments', 'mean')
+mutant('C09-variance-without-mean-correction', 'C09',
+       'aggregate_stats forgets to divide the squared sum by n',
+       [(_SCU, "    var = (sumsq_arr-sum_arr**2/max(1, n_cells))/max(1, n_cells-1)\n",
+         "    var = (sumsq_arr-sum_arr**2)/max(1, n_cells-1)\n")],
+       'R-ARITH/moments', 'var')
+twin('C11-twin-variance-through-the-mean', 'C11',
+     'variance written with the mean already computed',
+     [(_SCU, "    var = (sumsq_arr-sum_arr**2/max(1, n_cells))/max(1, n_cells-1)\n",
+       "    var = (sumsq_arr-mu*sum_arr)/max(1, n_cells-1)\n")])
+_CBU = P+'cell_by_gene/utils.py'
+mutant('C07-pseudo-count-in-cpm-divisor', 'C07',
+       'convert_to_cpm divides by the row total plus one',
+       [(_CBU, "    cpm = data.transpose()/denom\n",
+         "    cpm = data.transpose()/(denom+1.0)\n")],
+       'R-ARITH/cpm', 'convert_to_cpm')
+mutant('C07-log-of-cpm-of-one-plus-data', 'C07',
+       'to_log2CPM adds the one before normalising',
+       [(_CBG, "            data = np.log2(1.0+convert_to_cpm(self.data))\n",
+         "            data = np.log2(convert_to_cpm(1.0+self.data))\n")],
+       'R-ARITH/cpm', 'to_log2CPM')
+twin('C07-twin-cpm-in-one-expression', 'C07',
+     'convert_to_cpm written as one expression',
+     [(_CBU, "    cpm = data.transpose()/denom\n"
+       "    cpm = 1.0e6*cpm\n"
+       "    return cpm.transpose()\n",
+       "    return (1.0e6*data.transpose()/denom).transpose()\n")])
+_DU = P+'utils/distance_utils.py'
+mutant('C02-norm-of-uncentred-rows', 'C02',
+       'the kernel divides centred rows by the norm of the raw rows',
+       [(_DU, "    mu = np.mean(data, axis=1)\n"
+         "    data = (data.transpose()-mu)\n"
+         "    norm = np.sqrt(np.sum(data**2, axis=0))\n",
+         "    mu = np.mean(data, axis=1)\n"
+         "    norm = np.sqrt(np.sum(data.transpose()**2, axis=0))\n"
+         "    data = (data.transpose()-mu)\n")],
+       'R-ARITH/pearson', 'norm')
+mutant('C02-rows-not-centred', 'C02',
+       'the kernel normalises rows without subtracting their mean '
+       '(cosine similarity)',
+       [(_DU, "    data = (data.transpose()-mu)\n",
+         "    data = data.transpose()\n")],
+       'R-ARITH/pearson', 'centred')
+twin('C02-twin-norm-by-linalg', 'C02',
+     'norm of the centred rows computed with np.linalg.norm',
+     [(_DU, "    norm = np.sqrt(np.sum(data**2, axis=0))\n",
+       "    norm = np.linalg.norm(data, axis=0)\n")])
